@@ -1597,10 +1597,7 @@ static int cfg_parse_internal(cfg_t *cfg, int level, int force_state, cfg_opt_t 
 				comment = NULL;
 			}
 
-			if (tok == '+') {
-				ignore = '=';
-				state = 13; /* Append to list, should be followed by '=' */
-			} else if (tok == '=') {
+			if (tok == '+' || tok == '=') {	/* '+=' is a single token */
 				ignore = 0;
 				state = 14; /* Assignment, regular handling */
 			} else if (tok == '(') {
